@@ -28,7 +28,10 @@ THEOREMS = [
     "MCHap.C06.passes_iff",
     "MCHap.C06.rows_iff",
     "MCHap.C06.rows_order",
+    "MCHap.C06.rows_unselected",
     "MCHap.C06.cell_spec",
+    "MCHap.C06.used_calls_ok",
+    "MCHap.C06.calls_spec",
     "MCHap.C06.mergeChar_spec",
     "MCHap.C06.merge_order_independent",
     "MCHap.C06.filter_monotone",
